@@ -82,28 +82,29 @@ type Result struct {
 
 // Interp is one reference session.
 type Interp struct {
-	Globals   map[string]val.Value
-	out       strings.Builder
-	stdin     []string
-	stdinPos  int
-	steps     int
-	Budget    int
-	SizeLimit int
-	size      int
-	cur       *coroutine
-	root      *coroutine
-	res       *resolver
-	stats     Stats
-	completed []string
-	failOp    string
-	failArgs  []val.Value
+	Globals      map[string]val.Value
+	out          strings.Builder
+	stdin        []string
+	stdinPos     int
+	steps        int
+	Budget       int
+	SizeLimit    int
+	MaxCallDepth int
+	size         int
+	cur          *coroutine
+	root         *coroutine
+	res          *resolver
+	stats        Stats
+	completed    []string
+	failOp       string
+	failArgs     []val.Value
 	// Variant switches (DESIGN 3.7): emulate catalogued defects for known-finding matchers.
 	Variant map[string]bool
 }
 
 // New creates a session with the built-in functions bound.
 func New() *Interp {
-	in := &Interp{Globals: map[string]val.Value{}, Budget: 1000000, SizeLimit: 1000000, res: &resolver{}, Variant: map[string]bool{}}
+	in := &Interp{Globals: map[string]val.Value{}, Budget: 1000000, SizeLimit: 1000000, MaxCallDepth: 40000, res: &resolver{}, Variant: map[string]bool{}}
 	in.root = &coroutine{}
 	in.cur = in.root
 	for name, f := range builtins(in.res) {
@@ -481,6 +482,10 @@ func (in *Interp) call(x rCall, act *activation) val.Value {
 	co.calls = append(co.calls, na)
 	if d := len(co.calls) + co.depth; d > in.stats.MaxDepth {
 		in.stats.MaxDepth = d
+		if d > in.MaxCallDepth {
+			// the reference recurses on the Go stack: runaway recursion of a generated program is a budget matter
+			panic(budget{})
+		}
 	}
 	v, _ := in.eval(cl.fn.body, na)
 	// the coroutine may have been switched while evaluating; the call stack entry belongs to co
